@@ -14,6 +14,9 @@ CONSTANTS
   CraftToks = {"TA", "TV2"}
   MaxPresent = 2
   Calls = {"client", "craft", "readdress", "deliver"}
+  HealRounds = 0
+  HealDt = 250
+  Bound = 0
   PropsOn <- P_HS
   Export = TRUE
   ExportAll = FALSE
